@@ -436,3 +436,39 @@ func (w *Workspace) HookStats() HookStats {
 	}
 	return hs
 }
+
+// BuildInproc builds one of the verifx module's in-process probes (cmd/<name>) against the
+// tree in RepoDir: a temporary go.mod with the replace directive pointing there is used, so
+// the probe always follows the working tree under test.
+func (w *Workspace) BuildInproc(verifRoot, name string) (string, error) {
+	mod := "module github.com/goccmack/gocc/verifx\n\ngo 1.24\n\nrequire github.com/goccmack/gocc v0.0.0\n\nreplace github.com/goccmack/gocc => " + RepoDir + "\n"
+	modFile := filepath.Join(w.Dir, "inproc.mod")
+	if err := os.WriteFile(modFile, []byte(mod), 0666); err != nil {
+		return "", err
+	}
+	if sum, err := os.ReadFile(filepath.Join(RepoDir, "go.sum")); err == nil {
+		os.WriteFile(filepath.Join(w.Dir, "inproc.sum"), sum, 0666)
+	}
+	bin := filepath.Join(w.Dir, "bin", name)
+	cmd := exec.Command(GoBin(), "build", "-modfile="+modFile, "-tags", "verif", "-o", bin, "./cmd/"+name)
+	cmd.Dir = verifRoot
+	cmd.Env = goEnv()
+	if out, err := cmd.CombinedOutput(); err != nil {
+		return "", fmt.Errorf("building %s failed: %v\n%s", name, err, out)
+	}
+	return bin, nil
+}
+
+// WriteTemplate instantiates one embedded template (plain string replacement) at dst.
+func (w *Workspace) WriteTemplate(tname, dst string, replace map[string]string) error {
+	return w.writeTemplate(tname, dst, nil, replace)
+}
+
+// GoBuildIn runs `go build -o out pkg` in a sub directory of the workspace.
+func (w *Workspace) GoBuildIn(sub, out, pkg string) (string, error) {
+	cmd := exec.Command(GoBin(), "build", "-o", out, pkg)
+	cmd.Dir = filepath.Join(w.Dir, sub)
+	cmd.Env = goEnv()
+	b, e := cmd.CombinedOutput()
+	return string(b), e
+}
